@@ -485,5 +485,10 @@ def r06_11(ctx):
     from .common import delegate
     delegate(ctx, c03.r03_7, lambda c: True)
 
+def r06_12(ctx):
+    """R06.12 the integer form check is int() itself (no character-class shortcut in _is_base_n)."""
+    from .common import int_validator_shape
+    int_validator_shape(ctx)
+
 def rules():
-    return [("R06.11", r06_11, 3), ("R06.10", r06_10, 12), ("R06.6", r06_6, 14), ("R06.7", r06_7, 3), ("R06.1", r06_1, 7), ("R06.2", r06_2, 6), ("R06.3", r06_3, 2), ("R06.4", r06_4, 20), ("R06.5", r06_5, 3), ("R06.8", r06_8, 12), ("R06.9", r06_9, 1)]
+    return [("R06.12", r06_12, 1), ("R06.11", r06_11, 3), ("R06.10", r06_10, 12), ("R06.6", r06_6, 14), ("R06.7", r06_7, 3), ("R06.1", r06_1, 7), ("R06.2", r06_2, 6), ("R06.3", r06_3, 2), ("R06.4", r06_4, 20), ("R06.5", r06_5, 3), ("R06.8", r06_8, 12), ("R06.9", r06_9, 1)]
